@@ -23,6 +23,13 @@ META = {
 }
 
 M = "wow_mpq::"
+
+
+def _c03_inliner(body):
+    from .c03 import make_inliner
+    return make_inliner(body)
+
+
 STORED = re.compile(r"compressed|data\.len\(\)|sector_data|sector_size_compressed")
 ORIG = re.compile(r"file_size|expected_size|actual_file_size|data\.len\(\)")
 
@@ -48,6 +55,12 @@ def size_decisions(fn):
             st = next((a for a in ats if re.search(r"compressed|sector_data|sector_size_compressed", a)), None) or \
                 next((a for a in ats if a.startswith("data.len()")), None)
             og = next((a for a in ats if a != st and ORIG.search(a)), None)
+            if og is None and st:
+                # any other quantity the stored size is compared with, when the arms decide about decompression
+                def _has_dec(x):
+                    return x is not None and any(re.search(r"::decompress(_secure)?$|compression::decompress", (y.get("fn") or "")) for y in hirq.calls(x))
+                if _has_dec(n["then"]) or _has_dec(n.get("else")):
+                    og = next((a for a in ats if a != st), None)
             if not st or not og or st == og:
                 continue
             try:
@@ -90,6 +103,69 @@ def run(ctx):
                 ctx.bad(R_thr, key, where, "decision `%s` has table {lt:%s, eq:%s, gt:%s} over (stored=%s, original=%s); decompress in %s arm" % (
                     hirq.render(n["c"])[:80], tt["lt"], tt["eq"], tt["gt"], st, og, "then" if dthen else "else"),
                         "a block stored raw because it did not shrink (stored == original) is handed to the decompressor, or a compressed one is returned verbatim")
+    # 1a. the quantity the stored size is compared with is the size the data is then decompressed to
+    R_tgt = ctx.rule("C01.decision-bound-is-decompression-target", "where a reader decides `stored < X ⇒ decompress`, X is the expected size it passes to the decompressor in that arm", floor=2)
+    for path in ("archive::Archive::read_file", "archive::Archive::read_sectored_file", "archive::Archive::read_file_by_indices", "archive::Archive::read_patch_file_raw"):
+        f = fns.get(M + path)
+        if f is None:
+            continue
+        inl = _c03_inliner(f.hir["body"])
+        for n, tt, st, og, dthen, delse in size_decisions(f):
+            arm = n["then"] if dthen else (n.get("else") if delse else None)
+            if arm is None:
+                continue
+            targets = set()
+            for c in hirq.calls(arm):
+                if re.search(r"::decompress(_secure)?$|compression::decompress", c.get("fn") or "") and len(c.get("args") or []) >= 3:
+                    a = hirq.strip(c["args"][-1])
+                    while a.get("k") == "cast":
+                        a = hirq.strip(a["e"])
+                    targets.add(hirq.render(a))
+            if not targets:
+                continue
+            ogn = re.sub(r"^\((.*) as _\)$", r"\1", og)
+            key = "%s|bound-vs-target|%s" % (path.split("::")[-1], st[:24])
+            if ogn in targets or og in targets:
+                ctx.ok(R_tgt, {"fn": path, "bound": og, "decompress_target": sorted(targets)})
+            else:
+                ctx.bad(R_tgt, key, "%s:%d" % (f.file, n["ln"]), "stored size `%s` is compared with `%s`, but the arm decompresses to `%s`" % (st, og, ", ".join(sorted(targets))),
+                        "whenever the two differ (a short final sector, a truncated unit) a block stored raw is handed to the decompressor or a compressed one is returned verbatim")
+
+    # 1b'. number of sectors: every site computes ceil(size / sector_size) — decided over a grid of (size, sector_size)
+    R_cnt = ctx.rule("C01.sector-count-is-ceil-division", "the builder and every reader compute the sector count of a file as ceil(size / sector_size)", floor=3)
+    from .c10 import _ival, _NoEval
+    for path in ("builder::ArchiveBuilder::write_file", "archive::Archive::read_sectored_file", "archive::Archive::read_patch_file_raw", "modification::MutableArchive::prepare_file_data"):
+        f = fns.get(M + path)
+        if f is None:
+            continue
+        for l in hirq.find(f.hir["body"], "let"):
+            if l["pat"].get("k") != "bind" or l.get("init") is None:
+                continue
+            init = l["init"]
+            # structural: a quotient whose divisor is the sector size (whatever the local is called)
+            if not any((x.get("k") == "mcall" and x["m"] == "div_ceil" and "sector_size" in hirq.render(x["args"][0])) or
+                       (x.get("k") == "bin" and x["op"] == "/" and "sector_size" in hirq.render(x["r"])) for x in hirq.walk(init)):
+                continue
+            if any(x.get("k") in ("if", "match", "closure") for x in hirq.walk(init)):
+                continue
+            ctx.saw_fn(f)
+            bad = None
+            try:
+                for ssz in (1, 4, 8):
+                    for size in range(0, 3 * ssz + 2):
+                        got = _ival(init, {"__leaf__": (lambda r_, ssz=ssz, size=size: ssz if "sector_size" in r_ else size)}, {})
+                        want = -(-size // ssz)
+                        if got != want and bad is None:
+                            bad = (size, ssz, got, want)
+            except _NoEval as e:
+                ctx.note_unarmed(R_cnt, path, "sector count expression not evaluable: %s" % e)
+                continue
+            if bad:
+                ctx.bad(R_cnt, "%s|sector-count" % path.split("::")[-1], "%s:%d" % (f.file, l["ln"]), "`%s` gives %d sectors for size %d with sector size %d; ceil division gives %d" % (hirq.render(init)[:70], bad[2], bad[0], bad[1], bad[3]),
+                        "writer and reader disagree on how many entries the sector offset table has for such a file: the checksum table / following data is located 4 bytes off and the file does not read back")
+            else:
+                ctx.ok(R_cnt, {"fn": path, "expr": hirq.render(init)[:70]})
+
     # modification.rs writer-side decision mirrors compress()'s result
     pf = fns.get(M + "modification::MutableArchive::prepare_file_data")
     if pf is not None:
